@@ -91,6 +91,10 @@ def vocabulary():
                 "zqv_pkg", "zqv_pkg.sub", "numpy", "torch", "zqv_os", "osx"}
     attrs |= {"eval", "exec", "compile", "open", "getattr", "__import__", "print", "len", "system", "OrderedDict", "zqv_f",
               "load", "evaluate", "open_", "Popen"}
+    # modules compiled into the interpreter (fickle.py consults sys.builtin_module_names) and stdlib packages with
+    # submodules that are normally not imported yet
+    modules |= set(sys.builtin_module_names)
+    modules |= {"this.zen", "chunk.zqv", "encodings.cp037", "xml.dom.minidom", "platform", "unittest.mock", "importlib"}
     # GLOBAL's text format cannot carry spaces/newlines: excluded (stated bound)
     modules = sorted(m for m in modules if IDENT.match(m))
     attrs = sorted(a for a in attrs if IDENT.match(a) and "." not in a and not a.startswith("__") or a in ("__import__",))
